@@ -3,6 +3,7 @@ import Op2Model.Gen.Layout
 import Op2Proofs.Vol.Refuse
 import Op2Proofs.Vol.Search
 import Op2Proofs.Vol.ReadRef
+import Op2Proofs.Vol.StrictDec
 /-!
 # C02 — written VOLs conform to an independent description of the format; archives from an independent encoder are read
 
@@ -42,11 +43,12 @@ theorem C02_writer_conforms (out : Bytes) (files : List InFile) (b : Bytes) (h :
   exact descOf_strict out _ g (sorted_names_sortedW files)
     (fun f hf => hn f ((sortCI_perm nameOf files).mem_iff.mp hf))
 
-/-- the executable check used by the harness is sound for `StrictWF` -/
-theorem C02_strictWF_sound (b : Bytes) (h : Spec.strictWF b = true) : Spec.StrictWF b := by
-  unfold Spec.strictWF at h
-  simp only [Bool.and_eq_true, beq_iff_eq] at h
-  exact ⟨Spec.parse b, h.1, h.2⟩
+/-- the executable check used by the harness decides `StrictWF` exactly (so `StrictWF` is decidable: `decide` works on it) -/
+theorem C02_strictWF_sound (b : Bytes) (h : Spec.strictWF b = true) : Spec.StrictWF b := Spec.strictWF_sound b h
+theorem C02_strictWF_complete (b : Bytes) (h : Spec.StrictWF b) : Spec.strictWF b = true := Spec.strictWF_complete b h
+/-- a conforming archive has exactly one strict description: the encoder is injective on strict descriptions -/
+theorem C02_description_unique (d₁ d₂ : Spec.Desc) (h₁ : d₁.Strict) (h₂ : d₂.Strict)
+    (h : Spec.refEncode d₁ = Spec.refEncode d₂) : d₁ = d₂ := Spec.refEncode_injective_strict d₁ d₂ h₁ h₂ h
 
 /-- **on a conforming archive a case-insensitive binary search over the index order finds every member, in any letter
     case**, and finds nothing else -/
@@ -82,6 +84,7 @@ example : Spec.StrictWF (Spec.refEncode ⟨[⟨[65], [1, 2, 3], 3, 256⟩, ⟨[9
   ⟨_, by show Spec.Desc.strict _ = true; decide, rfl⟩
 example : (⟨[⟨[97], [1, 2, 3], 3, 256⟩, ⟨[98], [4], 77, 259⟩], 1, 1⟩ : Spec.Desc).WF := by
   show Spec.Desc.wf _ = true; decide
+example : ¬ Spec.StrictWF (Spec.refEncode ⟨[⟨[65], [1, 2, 3], 3, 259⟩], 0, 0⟩) := by decide
 example : ∃ b, create [111] [⟨[100, 47, 98], .bytes [7]⟩, ⟨[65], .bytes [1, 2, 3]⟩] = .ok b ∧ Spec.strictWF b = true :=
   ⟨_, rfl, by decide⟩
 
